@@ -605,4 +605,15 @@ func TestVerifC15(t *testing.T) {
 	for i := 0; i < n; i++ {
 		c15Do(out, vc15.GenCase(r.Fork(), false))
 	}
+	// table.email_with_domain as entitlement table, account names of mixed kinds (own stream)
+	for _, cs := range vc15.FixedWithDomain() {
+		c15Do(out, cs)
+	}
+	for _, cs := range vc15.FixedWithDomainQuoted() {
+		c15Do(out, cs)
+	}
+	rw := vh.NewRng(vh.Seed() + 1521)
+	for i, nw := 0, n/30; i < nw; i++ {
+		c15Do(out, vc15.GenWithDomainCase(rw.Fork(), false))
+	}
 }
